@@ -440,6 +440,11 @@ func (r *Run) MysqlTable(name gobinlog.MysqlTableName) (gobinlog.MysqlTable, err
 		panic(envPanicValue)
 	}
 	var td *TableDef
+	for _, t := range r.sc.Hist.retired {
+		if t.DB == name.DbName && t.Name == name.TableName {
+			td = t
+		}
+	}
 	for _, t := range r.sc.Hist.Tables {
 		if t.DB == name.DbName && t.Name == name.TableName {
 			td = t
